@@ -145,3 +145,29 @@ def cancel_absent(tokens):
             continue
         out.append(t)
     return out
+
+
+def failed_send_targets(body, bb):
+    """for block bb: the `ConnectionState::send` calls whose failure (`is_err()` true / Err edge)
+    controls bb, each with the origin set of the key of its target lookup in self.conns"""
+    out = []
+    for (u, g, labels) in body.dominating_guards(bb):
+        if g is None:
+            continue
+        src = None
+        if g.get("kind") == "bool" and g.get("call") is not None and g["call"].name == "is_err" and labels and labels[0] is True:
+            src = g["call"].args[0]
+        elif g.get("kind") == "variant" and labels and set(labels) <= {"Err", "Break"}:
+            src = ["c", g["place"]]
+        if src is None:
+            continue
+        for sc in body.origin_calls(src):
+            if sc is None or sc.callee != "aldrin_broker::broker::conn_state::ConnectionState::send":
+                continue
+            keys = set()
+            direct = body.origins(sc.args[0])
+            for lc in body.origin_calls(sc.args[0]):
+                if lc is not None and lc.name in ("get", "get_mut") and len(lc.args) > 1:
+                    keys |= body.origins(lc.args[1])
+            out.append((sc, keys, direct))
+    return out
